@@ -8,6 +8,7 @@ pub mod c14;
 pub mod lattice;
 pub mod paths;
 pub mod plan;
+pub mod steps;
 
 pub fn run(prop: &str, tier: Tier, seed: u64) -> i32 {
     match prop {
@@ -16,6 +17,9 @@ pub fn run(prop: &str, tier: Tier, seed: u64) -> i32 {
         "C03" => paths::run(paths::PathProp::C03, tier, seed),
         "C04" => paths::run(paths::PathProp::C04, tier, seed),
         "C05" => paths::run(paths::PathProp::C05, tier, seed),
+        "C15" => steps::run(steps::StepProp::C15, tier, seed),
+        "C16" => steps::run(steps::StepProp::C16, tier, seed),
+        "C17" => steps::run(steps::StepProp::C17, tier, seed),
         "C09" => c09::run(tier, seed),
         "C10" => c10::run(tier, seed),
         "C11" => c11::run(tier, seed),
@@ -53,6 +57,9 @@ pub fn replay(file: &str) -> i32 {
         ("C03", "scenario") => paths::replay(paths::PathProp::C03, rp, file),
         ("C04", "scenario") => paths::replay(paths::PathProp::C04, rp, file),
         ("C05", "scenario") => paths::replay(paths::PathProp::C05, rp, file),
+        ("C15", "steps") => steps::replay(steps::StepProp::C15, rp, file),
+        ("C16", "steps") => steps::replay(steps::StepProp::C16, rp, file),
+        ("C17", "steps") => steps::replay(steps::StepProp::C17, rp, file),
         _ => {
             crate::util::say(&format!("replay file {file} (property {prop}, kind {kind}): the recorded inputs are in the file; re-run `./check {prop}` with VERIF_SEED={} to reproduce", v["seed"]));
             0
